@@ -7,7 +7,7 @@
    The coarse machine qstate/qstep of Model/C19.v (atomic push / pull / close) is kept as the abstract
    view; a simulation between it and the C20 machine is NOT proved (stated in meta). *)
 From Coq Require Import List String Arith NArith ZArith Lia Bool.
-From GoMC Require Import Model.C20_syntax Gen.Queue Model.C20 Proofs.C20 Proofs.C20_fifo Proofs.C20_ll Proofs.C20_term Proofs.C20_top.
+From GoMC Require Import Model.C20_syntax Gen.Queue Model.C20 Proofs.C20 Proofs.C20_fifo Proofs.C20_ll Proofs.C20_term Proofs.C20_order Proofs.C20_top.
 From GoMC Require Import Gen.Gate Model.C19_syntax Proofs.C19_expected.
 Import ListNotations.
 Local Open Scope string_scope.
@@ -68,6 +68,21 @@ Qed.
 Theorem conn_terminates : forall (wire : list N) (m k : nat) (s : state),
   reachN ll_progs (init 0 (conn_scripts wire m)) k s -> k + phi s <= step_bound (conn_scripts wire m).
 Proof. intros wire m k s H. eapply top_ll_terminates; exact H. Qed.
+
+(* program order of the reader (C20_ll_push_then_close_single): what the caller of Conn.ReadPacket has
+   got so far is a prefix of the packets that arrived, in their order, followed by the error reports -
+   and an error is reported only after ALL of them were returned; the queue is closed only after every
+   packet that arrived was pushed *)
+Theorem conn_all_then_error : forall (wire : list N) (m : nat) (s : state) (t : thread),
+  conn_reachable wire m s -> nth_error (thr s) 1 = Some t ->
+  (exists a b, out t = map some_res (firstn a wire) ++ repeat clo b /\ a <= List.length wire /\ (b > 0 -> a = List.length wire)) /\
+  (closed s = true -> pushed s = wire).
+Proof.
+  intros wire m s t H Ht. unfold conn_reachable, conn_scripts, reader_script in H. split.
+  - exact (top_ll_push_then_close_single 0 wire m s t H Ht).
+  - destruct (top_ll_push_then_close 0 wire [repeat OPull m] s) as [_ [C _]]; [|exact H|exact C].
+    constructor; [|constructor]. apply Forall_forall. intros x Hx. apply repeat_spec in Hx. congruence.
+Qed.
 
 Theorem conn_skel_ok :
   Gate.bot_warp_conn = expected_bot_warp_conn /\ Gate.bot_conn_read_packet = expected_bot_conn_read_packet /\
